@@ -92,6 +92,16 @@ def match_known(known, name=None, tag=None):
     return None
 
 
+def clause_name(name):
+    import re
+    return re.sub(r"@\d+", "", name)
+
+
+def lockable(o):
+    """contract clauses written in contracts/*.py (not the side conditions collected from the explored paths)"""
+    return o.kind in ("ensures", "inv", "lemma", "frame", "cover", "static", "loop") and not o.name.startswith("[") and "#noraise" not in o.name and "#call.pre" not in o.name and "#loop[" not in o.name
+
+
 def main():
     ap = argparse.ArgumentParser()
     ap.add_argument("prop")
@@ -273,7 +283,7 @@ def main():
         print(f"UNDECIDED property={prop} obligation={ob.name} reason={ob.reason}")
     for fn, why in S.unsupported:
         print(f"OUT-OF-REACH property={prop} function={fn} reason={why}")
-    missing_locked = sorted(locked - {o.name for o in obs})
+    missing_locked = sorted(locked - {clause_name(o.name) for o in obs})
     for nm in missing_locked:
         print(f"MISSING-OBLIGATION property={prop} obligation={nm} (in obligations.lock.json, not generated from the current tree)")
 
@@ -325,19 +335,14 @@ def main():
         if os.path.exists(lock_path):
             with open(lock_path) as f:
                 allk = json.load(f)
-        allk[prop] = {"obligations": sorted(o.name for o in obs if o.status == "discharged"),
+        allk[prop] = {"obligations": sorted({clause_name(o.name) for o in obs if o.status == "discharged" and lockable(o)}),
                       "functions": {k: v.get("sha") for k, v in S.functions.items()}}
         with open(lock_path, "w") as f:
             json.dump(allk, f, indent=1, sort_keys=True)
     if violations or standin_viol:
         return 1
-    if missing_locked:
-        print(f"VIOLATION property={prop} replay=replays/{prop}/missing_obligations.json obligation={missing_locked[0]} no-failing-input-found")
-        with open(os.path.join(HERE, "replays", prop, "missing_obligations.json"), "w") as f:
-            json.dump({"property": prop, "missing": missing_locked,
-                       "why": "obligations that discharged on the reference tree are no longer generated (function removed/renamed or path no longer reachable)"}, f, indent=1)
-        return 1
-    if undecided or S.unsupported:
+    if undecided or S.unsupported or missing_locked:
+        # a contract clause of the reference tree that is no longer generated is UNDECIDED (nothing failed), never a violation
         return 2
     return 0
 
